@@ -32,12 +32,15 @@ func newCache[H Hash]() cache[H] {
 }
 
 func (c *cache[H]) getHeight(h uint32) *inbox[H] {
-	if m, ok := c.mail[h]; ok {
-		delete(c.mail, h)
-		return m
+	m := c.mail[h]
+	// Messages for this and any previous heights can't be used after this call.
+	for k := range c.mail {
+		if k <= h {
+			delete(c.mail, k)
+		}
 	}
 
-	return nil
+	return m
 }
 
 func (c *cache[H]) addMessage(m ConsensusPayload[H]) {
